@@ -2,8 +2,10 @@
 (* Trace validation for C16.  TRACE_FILE: a list of observed invocation sequences, each run
    from a fresh container image in the namespace sandbox with the real rendered runner.sh:
      [script, invs |-> <<[kind, d, o, fault_at, cls, exit,
-                          dests |-> <<[path, run, inputs, converted]>>]>>]
-   `run` is the id (position in the sequence) of the invocation whose job wrote the file.
+                          dests |-> <<[path, run, inputs, converted, ident]>>]>>]
+   `run` is the id (position in the sequence) of the invocation whose job wrote the file;
+   `ident` identifies the file itself (modification time, size, content digest): a file that was
+   rewritten, truncated, touched or created by this invocation differs from what was there before.
    Every invocation is one step of the Runner machine; the clauses below are the property.   *)
 EXTENDS RunnerReq, Json, IOUtils
 
@@ -22,6 +24,9 @@ At(dests, p) == dests[CHOOSE j \in DOMAIN dests : dests[j].path = p]
 Same(d1, d2, p) == (Holds(d1, p) = Holds(d2, p)) /\ (Holds(d1, p) => At(d1, p) = At(d2, p))
 Me == ToString(i + 1)
 FreshAnywhere(dests) == \E j \in DOMAIN dests : dests[j].run = Me
+\* after a failed invocation a destination is either what it was before or gone: anything else is a fresh file
+\* (an empty or truncated one, a re-stamped old one) that a consumer would take for this run's output
+FreshFile(prev, now) == \E p \in Paths : Holds(now, p) /\ ~(Holds(prev, p) /\ At(prev, p) = At(now, p))
 
 Fails ==
   LET oc == Outcome(Inv, Rec.cls, b)
@@ -30,7 +35,7 @@ Fails ==
   (IF oc = "exit10" /\ Rec.exit # 10 THEN {"FlagExitCodes"} ELSE {})
   \cup (IF oc = "exit1" /\ Rec.exit # 1 THEN {"FlagExitCodes"} ELSE {})
   \cup (IF oc = "fail" /\ Rec.exit = 0 THEN {"NoSuccessAfterFault"} ELSE {})
-  \cup (IF oc \in {"fail", "exit10", "exit1"} /\ FreshAnywhere(now) THEN {"NoFreshOutputAfterFault"} ELSE {})
+  \cup (IF oc \in {"fail", "exit10", "exit1"} /\ (FreshAnywhere(now) \/ FreshFile(Prev, now)) THEN {"NoFreshOutputAfterFault"} ELSE {})
   \cup (IF oc = "ok" /\ Rec.exit # 0 THEN {"SucceedsWhenItShould"} ELSE {})
   \* holds whatever else happened
   \cup (IF Rec.exit = 0 /\ DoRun(Inv) /\ Inv.kind # "both"
